@@ -116,6 +116,7 @@ class TensorBoardFileTraceExporter(JsonFileTraceExporter):
         self.timescale = "ms"
         self.default_extension = '.pt.trace.json'
         self.rank_cnt = 0
+        self.rank_ids = []
         self.traceview_by_rank = dict()
 
     # Save events into different files based on ID
@@ -123,7 +124,9 @@ class TensorBoardFileTraceExporter(JsonFileTraceExporter):
         # for trace events and get rank cnt
         events_by_id = self._parse_by_rank_id('pid', self.traceview.trace_events)
         # key=-1 (CollBandwidth) is not a rank and is only present if such counters exist
-        self.rank_cnt = len([rank_id for rank_id in events_by_id if rank_id >= 0])
+        # the ranks that are present: not necessarily 0..n-1 (a subset of the rank files of a job may be given)
+        self.rank_ids = sorted(rank_id for rank_id in events_by_id if rank_id >= 0)
+        self.rank_cnt = len(self.rank_ids)
         self._update_traceview_value_by_rank("trace_events", self.rank_cnt, events_by_id)
 
         # for display_time_unit
@@ -152,7 +155,7 @@ class TensorBoardFileTraceExporter(JsonFileTraceExporter):
 
     # Update traceview attr value based on given variable name
     def _update_traceview_value_by_rank(self, var_name, rank_cnt, value) -> None:
-        for rid in range(0, rank_cnt):
+        for rid in self.rank_ids:
             if rid not in self.traceview_by_rank:
                 self.traceview_by_rank[rid] = tv.TraceView(display_time_unit=self.timescale, other_data=self.meta)
 
@@ -190,7 +193,7 @@ class TensorBoardFileTraceExporter(JsonFileTraceExporter):
         else:
             fbase = os.path.splitext(file_name)[0]
 
-        for rid in range(0, self.rank_cnt):
+        for rid in self.rank_ids:
             output_file = f'{fbase}_worker_{rid}.pt.trace.json'
             with open(output_file, 'w') as f:
                 self.traceview_by_rank[rid].dump(fp=f)
